@@ -58,6 +58,8 @@ def run(m: Model, r: Report, tier: str) -> None:
     r.rule("R5", "the priority filter keeps records with priority value <= the requested one", floor=2)
     r.rule("R6", "every variable index into the offset table is bounds-checked (negative indices would silently wrap around)", floor=1)
     r.rule("R7", "negative offsets count from the end and are clamped to the beginning for short logs", floor=1)
+    r.rule("R10", "compressed logs are copied from the compressed source into the temporary file, which is flushed before it is read; the record offset "
+                  "table holds the start of every line and ends at end-of-file", floor=8)
     r.rule("R9", "the cached parsed record is dropped whenever the current line changes; the log file is finalised only after the queue listener drained", floor=2)
     r.rule("R8", "hr: head = first n, tail = offset -n, reverse = from the last record backwards", floor=3)
 
@@ -109,9 +111,171 @@ def run(m: Model, r: Report, tier: str) -> None:
                                                                    (n.kind == "cond" and "queue_listener" in ast.unparse(n.ast)))}
     if not fclose or not stops:
         raise AnalysisError(f"{zc.qualname}: file close / listener stop not found")
+    closes_ = {n.id for n in gz.nodes.values() if n.kind == "stmt" and n.ast is not None and "self.file.close()" in ast.unparse(n.ast)}
+    flushes_ = {n.id for n in gz.nodes.values() if n.kind == "stmt" and n.ast is not None and "self.file.flush()" in ast.unparse(n.ast)}
+    okc_, _ = gz.must_pass(gz.entry, closes_, {gz.exit_return}) if closes_ else (False, [])
+    r.check(okc_, "R9", f"{zc.qualname}#file-closed", "close() can return without closing the zstd stream: the frame is never ended and the log cannot be decompressed", loc=zc.loc)
+    qh = {n.id for n in gz.nodes.values() if n.kind == "stmt" and n.ast is not None and "self.queue_handler.close()" in ast.unparse(n.ast)}
+    r.check(bool(qh), "R9", f"{zc.qualname}#queue-handler-closed", "the queue handler must be closed so that no record is enqueued after the file is finalised", loc=zc.loc)
+    # the listener is stopped iff it exists and runs
+    stop_stmts = [n.ast for n in gz.nodes.values() if n.kind == "stmt" and n.ast is not None and "queue_listener.stop()" in ast.unparse(n.ast)]
+    r.check(len(stop_stmts) == 1, "R9", f"{zc.qualname}#listener-stopped", "the queue listener must be stopped (QueueListener.stop() drains the queue)", loc=zc.loc)
+    r.check(bool(flushes_), "R9", f"{zc.qualname}#file-flushed", "the file must be flushed before it is closed", loc=zc.loc)
+    if len(stop_stmts) == 1:
+        from sa.util import path_condition, truth_table
+        badq = truth_table(path_condition(zc.node, stop_stmts[0]), {"self.queue_listener": [None, "L"], "self.queue_listener._thread": [None, "T"]},
+                           lambda a: a["self.queue_listener"] is not None and a["self.queue_listener._thread"] is not None)
+        r.check(not badq, "R9", f"{zc.qualname}#stop-condition", f"the queue listener is stopped on {badq}; it must be stopped (drained) exactly when it exists and its thread runs", loc=zc.loc)
     okz, pz = gz.must_pass(gz.entry, stops, fclose)
     r.check(okz, "R9", f"{zc.qualname}#drain-before-finalise",
             "the zstd file is flushed / closed before the queue listener was stopped (stop() drains the queue): records still queued hit a closed stream and are lost", loc=zc.loc)
+
+    # optional keys: present -> the value, absent -> None (evaluated for both cases)
+    from sa import miniterp
+    def _wrap_oracle(call, env):
+        # constructors / converters around a looked-up value are transparent for this rule
+        if len(call.args) == 1 and not call.keywords and ast.unparse(call.func) in ("PenlogPriority", "datetime.datetime.fromisoformat", "int", "str"):
+            return miniterp.eval_expr(call.args[0], env, _wrap_oracle)
+        return NotImplemented
+    badk = []
+    for k in (ctor[0].keywords if ctor else []):
+        for present in (True, False):
+            try:
+                got = miniterp.eval_expr(k.value, {REC: ({k.arg: "VALUE"} if present else {})}, _wrap_oracle)
+            except miniterp.Raised:
+                got = "<KeyError>"
+            want = "VALUE" if present else (None if isinstance(k.value, ast.IfExp) else "<KeyError>")
+            if got != want:
+                badk.append(f"{k.arg} {'present' if present else 'absent'} -> {got!r}")
+    r.check(not badk, "R1", f"{pj.qualname}#present-absent", f"fields are read back as {badk}; a stored value must be returned, a missing optional key must give None", loc=pj.loc)
+
+    # ---------------------------------------------------------------- R10
+    pm = m.require_function(f"{LOG}.PenlogReader._prepare_for_mmap")
+    EXT_SIG = {"copyfileobj": ("source", "destination"), "copy_stream": ("source", "destination")}
+    tmp_vars = {n.targets[0].id for n in ast.walk(pm.node) if isinstance(n, ast.Assign) and isinstance(n.targets[0], ast.Name) and "TemporaryFile" in ast.unparse(n.value)}
+    n_copy = 0
+    def _unwrap(e):
+        while isinstance(e, ast.Call) and ast.unparse(e.func) == "cast" and len(e.args) == 2:
+            e = e.args[1]
+        return e
+    for w in [n for n in ast.walk(pm.node) if isinstance(n, ast.With)]:
+        src_vars = {it.optional_vars.id for it in w.items if isinstance(it.optional_vars, ast.Name)}
+        for c in [x for b_ in w.body for x in ast.walk(b_) if isinstance(x, ast.Call) and isinstance(x.func, ast.Attribute) and x.func.attr in EXT_SIG]:
+            n_copy += 1
+            a0, a1 = (_unwrap(c.args[0]), _unwrap(c.args[1])) if len(c.args) >= 2 else (None, None)
+            r.check(isinstance(a0, ast.Name) and a0.id in src_vars and isinstance(a1, ast.Name) and a1.id in tmp_vars, "R10", f"{pm.qualname}#copy-direction@{c.lineno - pm.node.lineno}",
+                    f"`{ast.unparse(c)[:70]}` does not copy from the opened log ({sorted(src_vars)}) into the temporary file ({sorted(tmp_vars)})", loc=f"{pm.module.relpath}:{c.lineno}")
+    if n_copy < 3:
+        raise AnalysisError(f"{pm.qualname}: expected three copy calls (zst, gz, plain), found {n_copy}")
+    gp = CFG(pm.node)
+    # the suffix match has no catch-all arm, but it is entered only under `path.suffix in [<the same literals>]`: its fall-through edge is infeasible
+    exhaustive_match = set()
+    for mt in [n for n in ast.walk(pm.node) if isinstance(n, ast.Match)]:
+        pats = {ast.literal_eval(ast.unparse(c.pattern)) for c in mt.cases if isinstance(c.pattern, ast.MatchValue) and isinstance(c.pattern.value, ast.Constant)}
+        from sa.util import path_condition as _pc
+        for t_, pol in _pc(pm.node, mt):
+            for cmp_ in [x for x in ast.walk(t_) if isinstance(x, ast.Compare) and len(x.ops) == 1 and isinstance(x.ops[0], ast.In) and isinstance(x.comparators[0], (ast.List, ast.Tuple, ast.Set))]:
+                if pol and ast.unparse(cmp_.left) == ast.unparse(mt.subject) and {e.value for e in cmp_.comparators[0].elts if isinstance(e, ast.Constant)} == pats and len(pats) == len(mt.cases):
+                    exhaustive_match.add(mt.lineno)
+    def _skip(n, b, k):
+        if k == "exc":
+            return True
+        if n.kind == "match" and n.lineno in exhaustive_match:
+            mt_n = next(x for x in ast.walk(pm.node) if isinstance(x, ast.Match) and x.lineno == n.lineno)
+            arm_first = {id(c.body[0]) for c in mt_n.cases}
+            return id(gp.nodes[b].ast) not in arm_first
+        return False
+    for tv in sorted(tmp_vars):
+        rets_t = {n.id for n in gp.nodes.values() if n.kind == "return" and isinstance(n.ast, ast.Return) and n.ast.value is not None and tv in {x.id for x in ast.walk(n.ast.value) if isinstance(x, ast.Name)}}
+        fl = {n.id for n in gp.nodes.values() if n.kind == "stmt" and n.ast is not None and f"{tv}.flush()" in ast.unparse(n.ast)}
+        cp = {n.id for n in gp.nodes.values() if n.ast is not None and n.kind in ("stmt", "with_enter") and any(isinstance(x, ast.Call) and isinstance(x.func, ast.Attribute) and x.func.attr in EXT_SIG for x in ast.walk(n.ast))}
+        okf_, _ = gp.must_pass(gp.entry, fl, rets_t, skip_edge=_skip) if fl and rets_t else (False, [])
+        okc2, _ = gp.must_pass(gp.entry, cp, rets_t, skip_edge=_skip) if cp and rets_t else (False, [])
+        r.check(okf_ and okc2, "R10", f"{pm.qualname}#filled-and-flushed", "the temporary file can be handed out without having been filled and flushed: trailing records are missing from the mapped view", loc=pm.loc)
+    mt_ = [n for n in ast.walk(pm.node) if isinstance(n, ast.Match)]
+    arms_ = {ast.unparse(c.pattern): ast.unparse(ast.Module(body=c.body, type_ignores=[])) for mt in mt_ for c in mt.cases}
+    r.check("zstandard" in arms_.get("'.zst'", "") and "gzip.open" in arms_.get("'.gz'", ""), "R10", f"{pm.qualname}#decompressor-by-suffix",
+            f"suffix dispatch is {sorted(arms_)}: .zst must be read with zstandard, .gz with gzip", loc=pm.loc)
+    psf = m.require_function(f"{LOG}.PenlogReader._parse_file_structure")
+    ploops = [n for n in walk_no_nested(psf.node) if isinstance(n, ast.While)]
+    okl = False
+    detail_l = "offset loop not found"
+    if len(ploops) == 1 and isinstance(ploops[0].test, ast.Constant) and ploops[0].test.value is True:
+        L_ = ploops[0]
+        breaks = [n for n in ast.walk(L_) if isinstance(n, ast.Break)]
+        eof_if = [n for n in L_.body if isinstance(n, ast.If) and any(isinstance(x, ast.Break) for x in n.body)]
+        if len(breaks) == 1 and len(eof_if) == 1:
+            lv = [ast.unparse(x) for x in ast.walk(eof_if[0].test) if isinstance(x, ast.Name)]
+            bad_t = []
+            for val in (b"", b"x\n", b"\n"):
+                taken = bool(miniterp.eval_expr(eof_if[0].test, {lv[0]: val})) if lv else None
+                if taken != (val == b""):
+                    bad_t.append(f"line={val!r} -> {'stop' if taken else 'continue'}")
+            app = [i for i, s_ in enumerate(L_.body) if "self._record_offsets.append(self.file_mmap.tell())" in ast.unparse(s_)]
+            rd = [i for i, s_ in enumerate(L_.body) if ".readline()" in ast.unparse(s_) and not isinstance(s_, ast.If)]
+            dl = any(isinstance(s_, ast.Delete) and ast.unparse(s_.targets[0]) == "self._record_offsets[-1]" for s_ in eof_if[0].body)
+            detail_l = f"eof test {bad_t or 'ok'}, append at {app}, readline at {rd}, last offset dropped at eof: {dl}"
+            okl = not bad_t and len(app) == 1 and len(rd) == 1 and app[0] < rd[0] < L_.body.index(eof_if[0]) and dl and not any(isinstance(n, ast.Continue) for n in ast.walk(L_))
+    r.check(okl, "R10", f"{psf.qualname}#offset-table",
+            f"{detail_l}; each iteration must record the position before reading a line, stop exactly at end-of-file and drop the position recorded for the "
+            "non-existent line after the last newline", loc=psf.loc)
+    lo = m.require_function(f"{LOG}.PenlogReader._lookup_offset")
+    first_if = next((n for n in lo.node.body if isinstance(n, ast.If)), None)
+    ipar = lo.params()[1] if len(lo.params()) > 1 else "index"
+    okz0 = first_if is not None and isinstance(first_if.body[0], ast.Return) and ast.unparse(first_if.body[0].value) == "0" and \
+        all(bool(miniterp.eval_expr(first_if.test, {ipar: v})) == (v == 0) for v in (-1, 0, 1, 5))
+    r.check(okz0, "R10", f"{lo.qualname}#first-record", "record 0 starts at offset 0 (and only record 0 takes that shortcut)", loc=lo.loc)
+    recs_fn = m.require_function(f"{LOG}.PenlogReader.records")
+    wl = [n for n in walk_no_nested(recs_fn.node) if isinstance(n, ast.While)]
+    r.check(len(wl) == 2 and all(any("self.readline()" in ast.unparse(s_) for s_ in w_.body[:1]) for w_ in wl), "R10", f"{recs_fn.qualname}#reads-each-record",
+            "both iteration directions must read the line at the current position first in every iteration", loc=recs_fn.loc)
+
+    # positioning primitives
+    RD = f"{LOG}.PenlogReader"
+    sk = m.require_function(f"{RD}.seek_to_record")
+    npar = sk.params()[1] if len(sk.params()) > 1 else "n"
+    r.check(any(isinstance(n, ast.Expr) and ast.unparse(n.value) == f"self.file_mmap.seek(self._lookup_offset({npar}))" for n in sk.node.body) and
+            any(isinstance(n, ast.Assign) and ast.unparse(n) == f"self._current_record_index = {npar}" for n in sk.node.body), "R10", f"{sk.qualname}#positions",
+            "seek_to_record(n) must move the file to the offset of record n and remember n", loc=sk.loc)
+    for fname, op in (("seek_to_next_record", ast.Add), ("seek_to_previous_record", ast.Sub)):
+        f_ = m.require_function(f"{RD}.{fname}")
+        steps = [n for n in f_.node.body if isinstance(n, ast.AugAssign) and ast.unparse(n.target) == "self._current_record_index"]
+        seeks = [n for n in f_.node.body if isinstance(n, ast.Expr) and ast.unparse(n.value) == "self.seek_to_record(self._current_record_index)"]
+        r.check(len(steps) == 1 and isinstance(steps[0].op, op) and m.try_fold(f_.module, steps[0].value) == 1 and len(seeks) == 1 and steps[0].lineno < seeks[0].lineno, "R10",
+                f"{f_.qualname}#step", "must move by exactly one record and re-position the file", loc=f_.loc)
+    sc_ = m.require_function(f"{RD}.seek_to_current_record")
+    r.check("self.file_mmap.seek(self._lookup_offset(self._current_record_index))" in ast.unparse(sc_.node), "R10", f"{sc_.qualname}#positions", "must re-position the file", loc=sc_.loc)
+    r.check(any("self._parse_file_structure()" in ast.unparse(n) for n in lo.node.body if isinstance(n, ast.If) and m.mtext(lo, n.test) == "not self._parsed"), "R10",
+            f"{lo.qualname}#parses-on-demand", "the offset table must be built before it is indexed", loc=lo.loc)
+    ln_ = m.require_function(f"{RD}.__len__")
+    r.check(any("self._parse_file_structure()" in ast.unparse(n) for n in ln_.node.body if isinstance(n, ast.If) and ast.unparse(n.test) == "not self._parsed"), "R10",
+            f"{ln_.qualname}#parses-on-demand", "len() must build the offset table first", loc=ln_.loc)
+    saved = {n.targets[0].id for n in psf.node.body if isinstance(n, ast.Assign) and isinstance(n.targets[0], ast.Name) and ast.unparse(n.value) == "self.file_mmap.tell()"
+             and n.lineno < ploops[0].lineno} if ploops else set()
+    r.check(any(isinstance(n, ast.Expr) and isinstance(n.value, ast.Call) and ast.unparse(n.value.func) == "self.file_mmap.seek" and len(n.value.args) == 1
+                and isinstance(n.value.args[0], ast.Name) and n.value.args[0].id in saved and ploops and n.lineno > ploops[0].lineno for n in psf.node.body), "R10", f"{psf.qualname}#restores-position",
+            "building the offset table must not move the read position", loc=psf.loc)
+    # forward iteration ends exactly at end-of-file; reverse iteration steps back and ends at the first record
+    fw = next((w_ for w_ in wl if not any(isinstance(x, ast.Try) for x in w_.body)), None)
+    bw = next((w_ for w_ in wl if any(isinstance(x, ast.Try) for x in w_.body)), None)
+    if fw is not None and bw is not None:
+        eof = [n for n in fw.body if isinstance(n, ast.If) and "self.readline()" in ast.unparse(n.test)]
+        okfw = len(eof) == 1 and isinstance(eof[0].body[0], ast.Break) and isinstance(eof[0].test, ast.Compare) and isinstance(eof[0].test.ops[0], ast.Eq) and \
+            ast.unparse(eof[0].test.comparators[0]) == "b''" and not any(isinstance(n, ast.Continue) for n in ast.walk(fw))
+        r.check(okfw, "R10", f"{recs_fn.qualname}#forward-ends-at-eof", "the forward loop must stop exactly when readline() returns b''", loc=recs_fn.loc)
+        tr_b = [n for n in bw.body if isinstance(n, ast.Try)]
+        okbw = len(tr_b) == 1 and "self.seek_to_previous_record()" in ast.unparse(tr_b[0].body[0]) and \
+            any(h.type is not None and ast.unparse(h.type) == "IndexError" and isinstance(h.body[-1], ast.Break) for h in tr_b[0].handlers)
+        r.check(okbw, "R10", f"{recs_fn.qualname}#reverse-steps-back", "the reverse loop must step to the previous record and stop at the IndexError of record -1", loc=recs_fn.loc)
+    # the reader accepts exactly the version the writer emits
+    fmt_ = m.require_function(f"{LOG}._JSONFormatter.format")
+    wkw = [k.value for n in ast.walk(fmt_.node) if isinstance(n, ast.Call) and ast.unparse(n.func) == "_PenlogRecordV2" for k in n.keywords if k.arg == "version"]
+    wver = m.try_fold(mod, wkw[0]) if len(wkw) == 1 else None
+    vifs = [n for n in pj.node.body if isinstance(n, ast.If) and "version" in ast.unparse(n.test) and any(isinstance(x, ast.Raise) for x in n.body)]
+    okver = False
+    if isinstance(wver, int) and len(vifs) == 1:
+        okver = all(bool(miniterp.eval_expr(vifs[0].test, {REC: {"version": vv}})) == (vv != wver) for vv in (wver - 1, wver, wver + 1))
+    r.check(okver, "R1", f"{pj.qualname}#version", f"records of the writer's version ({wver}) must be accepted and every other version refused", loc=pj.loc)
 
     # ---------------------------------------------------------------- R2
     levels = {k: ast.unparse(v) for k, v in m.require_class(f"{LOG}.Loglevel").class_attrs.items() if not k.startswith("_")}
